@@ -262,3 +262,35 @@ fn c20_headers_long_one() {
         }
     }
 }
+
+// @harness name=c20_room_only props=C20 tier=quick timeout=900 rmbody=ioerr
+// @bound concrete inputs (location `/x`; status 404 with the one header `A: b`), ONLY the destination room is symbolic (0..40): success iff the whole block fits, count exact, nothing accepted beyond the grammar's length (a cheap instance that stays decidable when the writers are restructured around intermediate buffers)
+// @functions cgi::response::simple_redirect, cgi::response::write_headers
+#[kani::proof]
+#[kani::unwind(8)]
+fn c20_room_only() {
+    let room: usize = kani::any();
+    kani::assume(room <= 40);
+    let mut w = Watch { room, pos: 0, watch: 0, seen: None, calls: 0 };
+    let which: bool = kani::any();
+    let (res, en) = if which {
+        (simple_redirect(&mut w, "/x"), b"Location: /x\n\n".len())
+    } else {
+        let hs: [(&[u8], &[u8]); 1] = [(b"A", b"b")];
+        (write_headers(&mut w, http::StatusCode::NOT_FOUND, hs.iter().copied()), b"Status: 404 Not Found\nA: b\n\n".len())
+    };
+    match res {
+        Ok(n) => {
+            assert!(room >= en, "reported success although the destination is too small");
+            assert!(n == en && w.pos == en, "returned byte count differs from the bytes handed to the destination / the documented grammar");
+            kani::cover!(room == en && which, "exact fit (redirect)");
+            kani::cover!(room == en && !which, "exact fit (headers)");
+        }
+        Err(e) => {
+            assert!(room < en, "failed although the destination is large enough");
+            assert!(w.pos <= room);
+            std::mem::forget(e);
+            kani::cover!(room + 1 == en, "one byte short");
+        }
+    }
+}
